@@ -554,8 +554,12 @@ func c12Library(reg *frRegistry) {
 	for i, key := range []string{"library/foo:latest", "library/bar:latest", "library/baz:latest", "ns1/foo:latest", "ns1/bar:v1", "ns1/baz:latest", "other/foo:latest", "h.test/ns1/foo:latest"} {
 		g := c04GGUFs[i%len(c04GGUFs)]
 		cfg := []byte(fmt.Sprintf(`{"model_format":"gguf","model_family":"llama","model_families":["llama"],"model_type":"1","file_type":"F32","architecture":"amd64","os":"linux","rootfs":{"type":"layers","diff_ids":["%d"]}}`, i%2))
-		reg.publish(strings.TrimPrefix(key, "h.test/"), &frModel{Layers: []frBlob{{Digest: frDigest(g), Data: g, MediaType: "application/vnd.ollama.image.model"}, lic},
-			Config: &frBlob{Digest: frDigest(cfg), Data: cfg, MediaType: "application/vnd.docker.container.image.v1+json"}})
+		m := &frModel{Layers: []frBlob{{Digest: frDigest(g), Data: g, MediaType: "application/vnd.ollama.image.model"}, lic},
+			Config: &frBlob{Digest: frDigest(cfg), Data: cfg, MediaType: "application/vnd.docker.container.image.v1+json"}}
+		if i%3 == 1 { // a zero-length layer (empty template): the empty blob is a blob like any other
+			m.Layers = append(m.Layers, frBlob{Digest: frDigest(nil), Data: []byte{}, MediaType: "application/vnd.ollama.image.template"})
+		}
+		reg.publish(strings.TrimPrefix(key, "h.test/"), m)
 	}
 }
 
